@@ -240,16 +240,17 @@ struct Out {
     conflicts: Vec<Value>,
     samples: Vec<Value>,
     classes: std::collections::BTreeMap<String, u64>,
+    deg_classes: std::collections::BTreeMap<String, u64>,
 }
 impl Out {
     fn new() -> Self {
         Out { evaluated: 0, nontrivial: Default::default(), accepted: 0, rejected: 0, panics: 0, weak_accepts: 0, violations: vec![], conflicts: vec![],
-            samples: vec![], classes: Default::default() }
+            samples: vec![], classes: Default::default(), deg_classes: Default::default() }
     }
     fn finish(self, kind: &str, extra: Value) {
         emit(&json!({"kind": kind, "evaluated": self.evaluated, "nontrivial": self.nontrivial.len(), "accepted": self.accepted, "rejected": self.rejected,
             "panics": self.panics, "weak_accepts": self.weak_accepts, "violations": self.violations, "conflicts": self.conflicts,
-            "samples": self.samples, "classes": self.classes, "extra": extra}));
+            "samples": self.samples, "classes": self.classes, "deg_classes": self.deg_classes, "extra": extra}));
     }
 }
 
@@ -365,6 +366,9 @@ fn run_case<const N: usize, const NPI: usize>(case: &Value, out: &mut Out, flip:
     let shape = format!("{N}x{NPI}d{}n{n_bits}", sys.deg);
     out.nontrivial.insert(format!("{shape}/{label}/{}", case["config"]));
     *out.classes.entry(format!("{}:{}", label.split(":c").next().unwrap(), if accepted { "acc" } else { "rej" })).or_insert(0) += 1;
+    // per declared constraint degree and expectation (vacuity guards of the driver)
+    *out.deg_classes.entry(format!("d{}/{}:expect_{}:{}", sys.deg, label.split(":c").next().unwrap(), if oracle_accept { "acc" } else { "rej" },
+        if accepted { "acc" } else { "rej" })).or_insert(0) += 1;
     if accepted {
         out.accepted += 1;
     } else {
@@ -640,6 +644,7 @@ fn tamper_one<const N: usize, const NPI: usize>(case: &Value, out: &mut Out, sam
     }
     let base_canon = canon_json(&base);
     let noncanonical = std::cell::Cell::new(0u64);
+    let pi_mut: std::cell::RefCell<std::collections::BTreeMap<usize, u64>> = Default::default();
     let mut check = |mutated: Value, what: String, gpath: String, out: &mut Out| {
         if mutated == base {
             return;
@@ -647,6 +652,11 @@ fn tamper_one<const N: usize, const NPI: usize>(case: &Value, out: &mut Out, sam
         if canon_json(&mutated) == base_canon {
             noncanonical.set(noncanonical.get() + 1);
             return;
+        }
+        if let Some(rest) = what.split("@.public_inputs[").nth(1) {
+            if let Ok(i) = rest.trim_end_matches(']').parse::<usize>() {
+                *pi_mut.borrow_mut().entry(i).or_insert(0) += 1;
+            }
         }
         tried.set(tried.get() + 1);
         out.evaluated += 1;
@@ -732,7 +742,8 @@ fn tamper_one<const N: usize, const NPI: usize>(case: &Value, out: &mut Out, sam
         check(m, format!("toggle@.proof.openings.{key}"), format!(".proof.openings.{key}"), out);
     }
     let _ = options;
-    json!({"shape": shape, "config": case["config"], "binding_bits": bits, "positions": leaves.len(), "arrays": arrays.len(), "mutations": tried.get(), "skipped_same_field_elements": noncanonical.get(),
+    json!({"shape": shape, "config": case["config"], "binding_bits": bits, "positions": leaves.len(), "arrays": arrays.len(), "mutations": tried.get(), "skipped_same_field_elements": noncanonical.get(), "npi": NPI, "unreferenced_pis": unreferenced_pis(&sys),
+           "pi_value_mutations": pi_mut.borrow().iter().map(|(i, n)| json!([i, n])).collect::<Vec<_>>(),
            "generic_paths": generic_seen.len()})
 }
 fn super_get<'a>(v: &'a Value, p: &[Seg]) -> &'a Value {
